@@ -33,6 +33,7 @@ def run(tier):
         H.status_gate(prog, rep, L)
         H.freenull(prog, rep)
         H.cookie_init(prog, rep, L)
+        H.eol_scan(prog, rep)
         from . import c07, c14
         c07.orphan_rule(prog, rep)     # "leaks nothing": the request's writer must not orphan a queued buffer
         c07.writer(prog, rep)          # the request goes out through the buffered writer: its failure/in-flight discipline (F1-F3, SLOT; shared with C07)
@@ -42,6 +43,9 @@ def run(tier):
         c14.leak_rules(wprog, rep, only_files=ANCHORED)
         # "never aborts, never reads or writes outside its buffers": the reader's window invariant and launch preconditions (shared with C07)
         c07.reader_window(wprog, rep)
+        # the connection under the request: a descriptor that was closed is never reported as the connected socket (shared with C06)
+        from . import c06
+        c06.closed_fd_rule(wprog, rep)
     n = len(configs)
     rep.require_min("LIN", 11 * n)
     rep.require_min("B1-store", 2 * n)
